@@ -88,7 +88,21 @@ class Flow:
         if k == "Field":
             return ("field", e["name"], self.desc(e["e"], env))
         if k == "Closure":
-            return ("closure", e.get("name"))
+            free = []
+            from facts import find_hir
+            for n, _ in find_hir(e["body"], lambda n: n.get("k") == "Path" and n.get("res") == "local"):
+                if n["name"] in env and env[n["name"]] not in free:
+                    free.append(env[n["name"]])
+            return ("closure", e.get("name"), free)
+        if k == "Match":
+            d = self.desc(e["e"], env)
+            parts = []
+            for arm in e["arms"]:
+                aenv = dict(env)
+                self.bind(arm["p"], d, aenv)
+                if "g" in arm:
+                    parts.append(self.desc(arm["g"], aenv))
+            return ("match", d, parts)
         if k == "Unary":
             return ("un", e.get("op"), self.desc(e["a"], env))
         if k == "Binary":
